@@ -19,7 +19,7 @@
    "never produces numbers" are observed by the correspondence harness. *)
 From Coq Require Import List Bool Arith ZArith.
 From PD Require Import Model.Validate Spec.Shapes Proofs.ValidateProofs
-  Proofs.ValidateBounded Proofs.ValidateBoundedCube.
+  Proofs.ValidatePriorProofs Proofs.ValidateBounded Proofs.ValidateBoundedCube.
 Import ListNotations.
 
 (* ------------------------------------------------------------------------
@@ -51,7 +51,24 @@ Proof. exact verify_accepts_function_leaves_refuted. Qed.
 
 (* ------------------------------------------------------------------------
    T20.2  prior_wiener_integrated(tcoeffs, is_exact, output_scale), the three
-   factorisations.  Bounded-exhaustive: for every valid base argument set of
+   factorisations, ALL inputs (coefficient values without None / empty containers,
+   see T20.4): whatever the constructor accepts is well-formed in EVERY field, i.e.
+   every malformed argument set raises -- coefficients of different shapes or tree
+   structure, an array / dict / function instead of a sequence, flags of a wrong or
+   merely broadcastable shape, of the wrong tree structure, of a non-boolean dtype,
+   a base scale of the wrong tree structure or leaf shape (isotropic: non-scalar). *)
+Theorem C20_prior_accepts_only_wellformed_arguments :
+  forall f tc ie sc, Regular tc -> prior_iwp f tc ie sc = Accept -> WfPriorIwp f tc ie sc.
+Proof. exact prior_iwp_accepts_only_wellformed. Qed.
+
+(* With a well-formed coefficient container the base-scale checks accept EXACTLY the
+   well-formed base scales (all inputs). *)
+Theorem C20_base_scale_check_reflects_wellformedness :
+  forall f mean sc, WfTcoeffs mean -> (base_scale f mean sc = Accept <-> WfBaseScale f mean sc).
+Proof. exact base_scale_reflects. Qed.
+
+(* Conversely (well-formed => accepted, so the specification is not vacuous), and the
+   equivalence as a whole, bounded-exhaustively: for every valid base argument set of
    [bases f] and every abstract value of [universe] (3840 trees of depth <= 2,
    width <= 2 over 18 kinds of leaves) substituted for ONE argument -- the
    quantifier of the property -- the constructor accepts iff the argument set is
@@ -92,9 +109,15 @@ Theorem C20_prior_dense_accepts_empty_tuple_coefficient_refuted :
 Proof. exact prior_iwp_dense_empty_tuple_refuted. Qed.
 
 (* ------------------------------------------------------------------------
-   T20.5  prior_exponential (dense): the ODE must be an autonomous ODE description
-   whose order equals the number of coefficients (TypeError otherwise), the rest as
-   T20.2; same bounded quantifier, ODE objects from [odes]. *)
+   T20.5  prior_exponential (dense): ALL inputs -- an accepted argument set has an
+   autonomous ODE description whose order equals the number of coefficients
+   (TypeError otherwise), and is well-formed as in T20.2. *)
+Theorem C20_exponential_prior_accepts_only_wellformed_arguments :
+  forall f ode tc ie sc, Regular tc -> prior_exp f ode tc ie sc = Accept ->
+    f = Dense /\ (exists k, ode = AJetOdeAuto k /\ py_len tc = Some k) /\ WfPriorIwp Dense tc ie sc.
+Proof. exact prior_exp_accepts_only_wellformed. Qed.
+
+(* The equivalence, same bounded quantifier as T20.2, ODE objects from [odes]. *)
 Theorem C20_exponential_prior_single_field_corruptions_rejected_bounded_partial :
   forall o b x, In o odes -> In b (bases Dense) -> In x universe ->
     (Regular x -> (prior_exp Dense o x (b_ie b) (b_sc b) = Accept <-> WfPriorExp Dense o x (b_ie b) (b_sc b))) /\
@@ -134,7 +157,14 @@ Theorem C20_explicit_std_blockdiag_wrong_length_is_broadcast_refuted :
   exists mean std, prior_iwp_diffuse BlockDiag mean std ANone = Accept /\ ~ WfPriorDiffuse BlockDiag mean std ANone.
 Proof. exact prior_iwp_diffuse_blockdiag_broadcasts_short_std_refuted. Qed.
 
-(* What does hold (on the cube): the isotropic factorisation has no gap; *)
+(* What does hold.  ALL inputs, all factorisations: an accepted pair has a well-formed
+   mean container and a well-formed base scale; *)
+Theorem C20_explicit_std_accepts_only_wellformed_mean_and_scale_partial :
+  forall f mean std sc, Regular mean -> prior_iwp_diffuse f mean std sc = Accept ->
+    WfTcoeffs mean /\ WfBaseScale f mean sc.
+Proof. exact prior_iwp_diffuse_accepts_only_wellformed_coefficients_and_scales. Qed.
+
+(* on the cube: the isotropic factorisation has no gap; *)
 Theorem C20_explicit_std_isotropic_bounded_partial :
   forall mean std sc, In mean cube -> In std cube -> In sc cube -> Regular mean -> Regular std ->
     (prior_iwp_diffuse Isotropic mean std sc = Accept <-> WfPriorDiffuse Isotropic mean std sc).
@@ -246,11 +276,14 @@ Print Assumptions C20_taylor_coefficient_validator_reflects_wellformedness.
 Print Assumptions C20_taylor_coefficient_validator_accepts_dict_container_refuted.
 Print Assumptions C20_taylor_coefficient_validator_confuses_empty_tuple_with_scalar_refuted.
 Print Assumptions C20_taylor_coefficient_validator_accepts_function_leaves_refuted.
+Print Assumptions C20_prior_accepts_only_wellformed_arguments.
+Print Assumptions C20_base_scale_check_reflects_wellformedness.
 Print Assumptions C20_prior_single_field_corruptions_rejected_bounded_partial.
 Print Assumptions C20_prior_all_argument_triples_bounded_partial.
 Print Assumptions C20_scalar_flags_per_leaf_are_wellformed_and_accepted.
 Print Assumptions C20_broadcastable_flag_shapes_are_rejected.
 Print Assumptions C20_prior_dense_accepts_empty_tuple_coefficient_refuted.
+Print Assumptions C20_exponential_prior_accepts_only_wellformed_arguments.
 Print Assumptions C20_exponential_prior_single_field_corruptions_rejected_bounded_partial.
 Print Assumptions C20_exponential_prior_only_for_dense.
 Print Assumptions C20_explicit_std_dense_wrong_tree_structure_refuted.
@@ -258,6 +291,7 @@ Print Assumptions C20_explicit_std_dense_dict_container_refuted.
 Print Assumptions C20_explicit_std_dense_wrong_rank_refuted.
 Print Assumptions C20_explicit_std_blockdiag_wrong_rank_refuted.
 Print Assumptions C20_explicit_std_blockdiag_wrong_length_is_broadcast_refuted.
+Print Assumptions C20_explicit_std_accepts_only_wellformed_mean_and_scale_partial.
 Print Assumptions C20_explicit_std_isotropic_bounded_partial.
 Print Assumptions C20_explicit_std_wellformed_is_accepted_bounded_partial.
 Print Assumptions C20_explicit_std_accepted_pairs_bounded_partial.
